@@ -47,7 +47,7 @@ META = {
     "C03": {
         "level": "exploration",
         "evaluations": ["fuzz_cases", "prng_cases", "example_cases"],
-        "required": ["fuzz_cases", "prng_cases", "values_checked", "fuzz_passed", "fuzz_skipped"],
+        "required": ["fuzz_cases", "prng_cases", "values_checked", "fuzz_passed", "fuzz_skipped", "long_values_checked", "long_failing_checks"],
         "show": ["values_checked", "fuzz_passed", "fuzz_skipped", "fuzz_failed"],
         "rule": "random generator expressions (depth<=3, every public constructor, extreme parameters) each driven by hostile byte strings "
                 "through MakeFuzz and by the PRNG through Check/Example; every returned value is checked against the per-node contract; "
